@@ -651,10 +651,9 @@ impl Property for ThreadedStall {
         true
     }
     fn strategy(&self, _: &Ctx) -> BoxedStrategy<IngestCase> {
-        // max_compaction_files stays at or above 32 so that the known finding R-P (the minimal L0
-        // compaction exceeds max_compaction_files) is out of reach by construction: with at most
-        // stall_files + in-flight ingests files in L0 and at most nkeys level-1 files
-        (1u8..5, 0u8..3, prop_oneof![Just(32u8), Just(64u8)], 1u8..5, 2u8..10, 1u8..5, 4u8..20, 1u8..4, prop::collection::vec(any::<u8>(), 64), prop::collection::vec(prop::collection::vec(any::<u8>(), 0..16), 8), (prop_oneof![2 => Just(0u8), 1 => 1u8..8, 3 => 14u8..20], any::<bool>()))
+        // max_compaction_files includes values below the stall threshold: since the repair of R-P
+        // (2806f7c) the level-0 compaction that lifts a stall is not refused for exceeding it
+        (1u8..5, 0u8..3, prop_oneof![2 => Just(2u8), 2 => Just(3u8), 1 => Just(5u8), 2 => Just(32u8), 2 => Just(64u8)], 1u8..5, 2u8..10, 1u8..5, 4u8..20, 1u8..4, prop::collection::vec(any::<u8>(), 64), prop::collection::vec(prop::collection::vec(any::<u8>(), 0..16), 8), (prop_oneof![2 => Just(0u8), 1 => 1u8..8, 3 => 14u8..20], any::<bool>()))
             .prop_map(|(mandatory_files, extra, max_compaction_files, ingest_threads, ssts_per_thread, keys_per_sst, nkeys, compaction_threads, key_sel, perturb, (prefill, common_key))| IngestCase {
                 prefill,
                 common_key,
